@@ -9,7 +9,8 @@
    [Rl h s l] / [Rs h v l] : in heap h the value s / v represents the list l (Seq/ListProofs.v, Seq/SliceProofs.v).
    [None] = run-time panic.  [grow] = whatever extra capacity Go's growslice decides to add (any function). *)
 From Coq Require Import List ZArith.
-From Golem Require Import Seq.Model Seq.ListProofs Seq.SliceProofs Seq.Theorems.
+From Golem Require Import Seq.Model Seq.ListProofs Seq.SliceProofs Seq.Theorems Seq.GenFoldFacts.
+From GolemGen Require Import GenFold.
 Import ListNotations.
 Open Scope Z_scope.
 
@@ -92,6 +93,24 @@ Theorem C19_slice_fold_left_spec : forall grow fuel m h s l, Rs h s l -> (length
   fold (slice_impl grow) fuel m h s = Some (fold_left (mcombine m) l (mempty m)).
 Proof. exact slice_fold_left_spec. Qed.
 Print Assumptions C19_slice_fold_left_spec.
+
+(* ---------------- the loop of foldable.go, regenerated from the source on every run ---------------- *)
+(* [Fold] (coq/gen/GenFold.v) is what tools/go2coq reads off Foldable.Fold now; at any implementation of the trait, heap
+   and monoid it is the [fold] of the model - so it is the left fold from the monoid's empty element on both traits *)
+Theorem C19_generated_fold_is_model_fold : forall (I : impl) (fuel : nat) (m : monoid) (h : iH I) (s : iS I),
+  Fold (mcombine m) (mempty m) (ihead I h) (iisempty I h) (itail I h) fuel s = fold I fuel m h s.
+Proof. exact gen_fold_eq. Qed.
+Print Assumptions C19_generated_fold_is_model_fold.
+
+Theorem C19_generated_fold_list : forall fuel m h s l, Rl h s l -> (length l < fuel)%nat ->
+  Fold (mcombine m) (mempty m) (l_head h) (l_isempty h) (l_tail h) fuel s = Some (fold_left (mcombine m) l (mempty m)).
+Proof. exact gen_fold_list. Qed.
+Print Assumptions C19_generated_fold_list.
+
+Theorem C19_generated_fold_slice : forall fuel m h s l, Rs h s l -> (length l < fuel)%nat ->
+  Fold (mcombine m) (mempty m) (s_head h) (s_isempty h) (s_tail h) fuel s = Some (fold_left (mcombine m) l (mempty m)).
+Proof. exact (gen_fold_slice (fun _ _ => O)). Qed.
+Print Assumptions C19_generated_fold_slice.
 
 (* what the real code does on the empty sequence: index / slice bounds out of range, a panic *)
 Theorem C19_slice_empty_panics : forall h s, Rs h s [] -> s_head h s = None /\ s_tail h s = None.
